@@ -178,8 +178,11 @@ func Draw(t *sim.Tape, p DrawParams) *Workload {
 			case 2:
 				st.Ops = append(st.Ops, simfn.Op{"op": "contextDrop"})
 			}
-			if t.Next(4) == 0 {
+			switch t.Next(8) {
+			case 0, 1:
 				st.Ops = append(st.Ops, simfn.Op{"op": "require", "mode": "narrow", "report": "y"})
+			case 2:
+				st.Ops = append(st.Ops, simfn.Op{"op": "require", "mode": "once", "report": "y"})
 			}
 			// (a secret of the same name exists in two namespaces with different data)
 			for _, sn := range []string{"crossplane-system/creds-a", "crossplane-system/creds-b", "team-b/creds-a"} {
